@@ -55,8 +55,8 @@ def run(ctx, replay):
         # ---- 2. scenarios: every (state, message) of the bounded model
         scen = []
         for (cs, rs, k, n) in ([(C2, R2, 1, 5), (C2, R2, 2, 5), (C3, R2, 1, 3)] if quick else
-                               [(C2, R2, 1, 8), (C2, R2, 2, 8), (C3, R2, 1, 6), (C3, R3, 2, 5), (C2, R3, 1, 6), (C3, R3, 1, 5)]):
-            hs = ctx.generate(D, "Gen_RoomLock", gen_cfg(cs, rs, k, n), "gen_%d%d%d" % (len(cs), len(rs), k), workers=1)
+                               [(C2, R2, 1, 8), (C2, R2, 2, 8), (C3, R2, 1, 6), (C3, R3, 2, 4), (C2, R3, 1, 6), (C3, R3, 1, 4)]):
+            hs = ctx.generate(D, "Gen_RoomLock", gen_cfg(cs, rs, k, n), "gen_%d%d%d" % (len(cs), len(rs), k), workers=1, timeout=600 if quick else 3000)
             for h in vlib.drop_prefixes(hs):
                 scen.append({"max": k, "steps": h})
         for i, sc in enumerate(scen):
